@@ -18,8 +18,11 @@ import traceback
 import warnings
 
 VERIF = os.path.dirname(os.path.dirname(os.path.abspath(__file__)))
-EVIDENCE_DIR = os.path.join(VERIF, "evidence")
-REPLAY_DIR = os.path.join(VERIF, "replays")
+# VERIF_OUT redirects evidence and replay files (used when the checks are pointed at a scratch copy of the repository
+# with a seeded change, so that the committed evidence of the real tree is not overwritten)
+_OUT = os.environ.get("VERIF_OUT", VERIF)
+EVIDENCE_DIR = os.path.join(_OUT, "evidence")
+REPLAY_DIR = os.path.join(_OUT, "replays")
 KNOWN_FINDINGS = os.path.join(VERIF, "known_findings.json")
 
 _QUIET_DONE = False
